@@ -109,6 +109,18 @@ class PROP(PropCheck):
             for src in ['IMPORT MOD "m1.ap"\n', 'IMPORT MOD "m2.ap"\nDISPLAY(bad(1))\n', 'IMPORT MOD "m3.ap"\nDISPLAY(idx([1]))\n',
                         'IMPORT MOD "m4.ap"\n', 'IMPORT "bad" FROM MOD "m2.ap"\nIF (TRUE) {\nDISPLAY(bad(2))\n}\n']:
                 out.append(Case(pad + src, mods=dict(mods), meta={"module": True}))
+        # ... and call diagnostics (argument count, a native's argument) raised inside an exported procedure of a module that is much
+        # longer than the importing program: a label paired with the wrong file's text cannot be read there
+        long_mod = "// " + "é" * 300 + "\n" + ("// filler line\n" * 10)
+        mods2 = {"m5.ap": long_mod + 'EXPORT PROCEDURE rm(l) {\nRETURN REMOVE(l, 9)\n}\nEXPORT PROCEDURE ar(x) {\nRETURN LENGTH(x, x)\n}\n'
+                                     'EXPORT PROCEDURE ins(l) {\nINSERT(l, 7, 0)\n}\nEXPORT PROCEDURE fm(s) {\nRETURN FORMAT(s, [1])\n}\n'}
+        for src in ['IMPORT MOD "m5.ap"\nDISPLAY(rm([1]))\n', 'IMPORT MOD "m5.ap"\nDISPLAY(ar(1))\n', 'IMPORT MOD "m5.ap"\nins([1])\n',
+                    'IMPORT MOD "IO"\nIMPORT MOD "m5.ap"\nDISPLAY(fm("{} {} {}"))\n']:
+            out.append(Case(src, mods=dict(mods2), meta={"module": True}))
+        # FORMAT / DISPLAYF with too few items, the format string not a literal, at the very end of the source
+        for tail in ['s <- "{} and {} and {}"\nDISPLAY(FORMAT(s, [1]))', 'DISPLAY(FORMAT("a {}" + " b {}" + " c {}", [1]))',
+                     's <- "{}{}{}{}{}{}{}{}{}{}{}{}"\nDISPLAYF(s, [])']:
+            out.append(Case('IMPORT MOD "IO"\n' + tail, meta={"format": True}))
         progs = G.example_programs()
         for _ in range((500 if tier == "quick" else 10000) * scale):
             k = rng.random()
